@@ -722,13 +722,28 @@ def run_item(item, col, tier):
                 outs.append(((gseed, k) if not dbg else (gseed, k, "logger at DEBUG"), digest(out)))
             if refused or not outs:
                 continue
+            if item["op"].startswith("cli:"):
+                # the runs above share one working directory, so from the second seed on the output paths already hold the
+                # files of an earlier run; the same call into an EMPTY directory must give the same output
+                fresh = env.scratch_dir("c18f")
+                try:
+                    out, hits, changed, exc = one_run(fn, seed, item["variant"], b["schedules"][0][0], b["schedules"][0][1], fresh)
+                finally:
+                    shutil.rmtree(fresh, ignore_errors=True)
+                col.evaluations += 1
+                col.transitions += 1
+                if exc is None:
+                    outs.append((("fresh output directory",), digest(out)))
             ref = outs[0][1]
             for sched, d in outs[1:]:
                 if d != ref:
                     col.violation(
                         f"C18|differs|{item['op']}",
-                        f"{item['op']} (input {item['variant']}, seed {seed}) gives different output under global schedule {sched} than under {outs[0][0]}",
-                        {"op": item["op"], "variant": item["variant"], "seed": seed, "schedule": list(sched), "against": list(outs[0][0])},
+                        f"{item['op']} (input {item['variant']}, seed {seed}) gives different output under global schedule {sched} than under {outs[0][0]}"
+                        if sched != ("fresh output directory",) else
+                        f"{item['op']} (input {item['variant']}, seed {seed}) gives different output in an empty directory than in one that holds the output files of an earlier run with another seed",
+                        {"op": item["op"], "variant": item["variant"], "seed": seed, "schedule": list(sched), "against": list(outs[0][0])} if sched != ("fresh output directory",)
+                        else {"__item__": item},
                     )
             per_seed[seed] = ref
             col.states += 1
